@@ -25,9 +25,11 @@ from harness import core
 
 CTORS = ["if_", "loop", "scan", "sequence_map"]
 NODE_CLASSES = {"_If": "if_", "_Loop": "loop", "_Scan": "scan", "_SequenceMap": "sequence_map"}
-STEPS_FULL = ["build", "infer", "build", "valueProp", "to_onnx", "inspect", "build"]
+STEPS_FULL = ["build", "infer", "build", "valueProp", "to_onnx", "inspect", "copy", "pickle", "graphMethod",
+              "varMethod", "inline", "build"]
 MODEL_STEP = {"build": "build", "to_onnx": "build", "infer": "infer", "valueProp": "valueProp",
-              "inspect": "inspect"}
+              "inspect": "inspect", "copy": "copy", "pickle": "copy", "graphMethod": "graphMethod",
+              "varMethod": "varMethod", "inline": "inline"}
 
 
 class _Boom(Exception):
@@ -57,6 +59,15 @@ NON_TENSORS = [
     {"opt": {"seq": T(F32, ())}},
 ]
 POOL = TENSORS + NON_TENSORS
+# more types for the seeded long lists of the thorough tier
+EXTRA_TYPES = [
+    {"seq": {"seq": T(F32, (2,))}},  # nested sequence
+    {"opt": T(I64, None)},  # optional of unknown shape
+    {"opt": {"seq": T(BOOL, (2, None))}},
+    T(8, (2,)),  # string tensor
+    T(F64, (1, 2, 3, 4)),  # rank 4
+    T(I32, (None,)),
+]
 SEQS = [{"seq": T(F32, (3,))}, {"seq": T(I64, None)}, {"seq": T(BOOL, (2, 2))}]
 
 
@@ -310,6 +321,7 @@ def run_real(env: Env, case, steps=()):
                     outs = f(
                         operands["initial_state_and_scan_inputs"], body=cbs["body"],
                         num_scan_inputs=case["ints"]["num_scan_inputs"], scan_input_axes=case.get("axes"),
+                        **case.get("scan_attrs", {}),
                     )
                 else:
                     outs = f(singles["input_sequence"], operands["additional_inputs"], body=cbs["body"])
@@ -396,6 +408,38 @@ def run_real(env: Env, case, steps=()):
                             repr(sub)
                             list(sub.requested_arguments or ())
                             dict(sub.requested_results)
+                            sub == sub, hash(sub)
+                        repr(node), hash(node)
+                    elif st in ("copy", "pickle") and node is not None:
+                        import copy
+                        import pickle
+
+                        things = list(outs) + list(node.subgraphs) + [node]
+                        for th in things:
+                            for fn in ([copy.copy, copy.deepcopy] if st == "copy" else [pickle.dumps]):
+                                try:
+                                    fn(th)
+                                except Exception:  # noqa: BLE001 - unsupported copies are fine; re-invoking is not
+                                    pass
+                    elif st == "graphMethod" and node is not None:
+                        for sub in node.subgraphs:
+                            g2 = sub.with_name("renamed").with_doc("doc").with_opset(("", 17))
+                            if sub.requested_arguments is not None:
+                                g2 = g2.with_arguments(*sub.requested_arguments)
+                            repr(g2)
+                    elif st == "varMethod":
+                        import copy
+
+                        for v in outs:
+                            v.unwrap_type(), repr(v), copy.copy(v), str(v.type)
+                    elif st == "inline" and outd:
+                        try:
+                            mp = env.spox.build(ins, outd)
+                        except ValueError:
+                            mp = None  # unknown shapes at the model border: nothing to inline
+                        if mp is not None:
+                            again = env.spox.inline(mp)(**ins)
+                            env.spox.build(ins, {k: v for k, v in again.items()})
             except Exception as e:  # noqa: BLE001
                 obs["step_errors"].append((st, type(e).__name__))
             obs["steps"].append((st, {r: counters.get(r, 0) - before.get(r, 0) for r in case["cbs"]}))
@@ -661,6 +705,16 @@ def finish_case(case, rng, container=None):
         ops = case["lists"]["initial_state_and_scan_inputs"]
         if len(ops) - case["ints"]["num_scan_inputs"] + case["k_extra"] <= 0:
             case["k_extra"] = 1
+    if ctor == "scan" and "scan_attrs" not in case and rng.random() < 0.4:
+        m_, k_ = case["ints"]["num_scan_inputs"], case["k_extra"]
+        attrs = {}
+        if rng.random() < 0.7 and m_ > 0:
+            attrs["scan_input_directions"] = [rng.randrange(2) for _ in range(m_)]
+        if rng.random() < 0.6 and k_ > 0:
+            attrs["scan_output_directions"] = [rng.randrange(2) for _ in range(k_)]
+        if rng.random() < 0.6 and k_ > 0:
+            attrs["scan_output_axes"] = [rng.choice([0, 0, 1, -1]) for _ in range(k_)]
+        case["scan_attrs"] = attrs
     cont = container or rng.choice(["list", "list", "tuple", "gen", "map", "dictkeys"])
     if ctor == "if_":
         n = case.get("n_if", 1)
@@ -701,10 +755,20 @@ def fallback_resolves():
 def gen_cases(ck, info):
     rng = ck.rng
     defs, _ = defining_modules(info)
+    defs0 = defs  # the modules that define the constructors
     cases = []
     maxlen_exh = 3  # Loop, SequenceMap
+    maxlen_loop = ck.pick(3, 4)
     maxlen_scan = ck.pick(2, 3)
-    longer = ck.pick(0, 150)  # seeded lists of length 4-5 (thorough)
+    longer = ck.pick(0, 1500)  # seeded lists of length 4-5 over the larger type pool (thorough)
+    pool_x = POOL + EXTRA_TYPES
+    tensors_x = TENSORS + [d for d in EXTRA_TYPES if "t" in d]
+    if ck.thorough:  # every shipped module, also the ones that only re-export the constructor
+        defs = {}
+        for m_, c_, _d in info["resolves"]:
+            defs.setdefault(c_, [])
+            if m_ not in defs[c_]:
+                defs[c_].append(m_)
 
     def lists_upto(pool, n):
         for k in range(n + 1):
@@ -716,12 +780,12 @@ def gen_cases(ck, info):
     pool_u = POOL + [None]
     # ---- Loop: carried values of every kind
     for mod in defs.get("loop", []):
-        for car in lists_upto(POOL, maxlen_exh):
+        for car in lists_upto(POOL, maxlen_loop if mod in defs0.get("loop", []) else 2):
             cases.append(finish_case({"mod": mod, "ctor": "loop", "lists": {"v_initial": car}}, rng))
         for _ in range(ck.pick(60, 300)):
             cases.append(finish_case({"mod": mod, "ctor": "loop", "lists": {"v_initial": rand_list(pool_u, 3)}}, rng))
         for _ in range(longer):
-            cases.append(finish_case({"mod": mod, "ctor": "loop", "lists": {"v_initial": rand_list(POOL, rng.randrange(4, 6))}}, rng))
+            cases.append(finish_case({"mod": mod, "ctor": "loop", "lists": {"v_initial": rand_list(pool_x, rng.randrange(4, 6))}}, rng))
         for k in range(1, 4):
             cases.append(finish_case({"mod": mod, "ctor": "loop", "lists": {"v_initial": rand_list(POOL, k - 1) + [None]}}, rng))
         # ONNX: `cond` is a scalar; the body hands the condition it received on
@@ -745,14 +809,14 @@ def gen_cases(ck, info):
                     if all(len(d["s"]) >= 2 for d in scans):
                         yield {"mod": mod, "ctor": "scan", "lists": {"initial_state_and_scan_inputs": ops},
                                "ints": {"num_scan_inputs": m}, "axes": [1] * m}
-        for ops in lists_upto(TENSORS, maxlen_scan):
+        for ops in lists_upto(TENSORS, maxlen_scan if mod in defs0.get("scan", []) else 2):
             for c in scan_variants(ops):
                 cases.append(finish_case(c, rng))
         for _ in range(ck.pick(40, 0)):
             for c in scan_variants(rand_list(TENSORS, 3)):
                 cases.append(finish_case(c, rng))
         for _ in range(longer // 3):
-            for c in scan_variants(rand_list(TENSORS, rng.randrange(4, 6))):
+            for c in scan_variants(rand_list(tensors_x, rng.randrange(4, 6))):
                 cases.append(finish_case(c, rng))
         for _ in range(ck.pick(25, 200)):  # operands that are not tensors / of unknown type
             ops = rand_list(pool_u, rng.randrange(1, 4))
@@ -761,12 +825,12 @@ def gen_cases(ck, info):
     # ---- SequenceMap
     for mod in defs.get("sequence_map", []):
         for s in SEQS:
-            for ex in lists_upto(TENSORS + SEQS, maxlen_exh):
+            for ex in lists_upto(TENSORS + SEQS, maxlen_exh if mod in defs0.get("sequence_map", []) else 2):
                 cases.append(finish_case({"mod": mod, "ctor": "sequence_map", "singles": {"input_sequence": s},
                                           "lists": {"additional_inputs": ex}}, rng))
         for _ in range(longer):
             cases.append(finish_case({"mod": mod, "ctor": "sequence_map", "singles": {"input_sequence": rng.choice(SEQS)},
-                                      "lists": {"additional_inputs": rand_list(TENSORS + SEQS, rng.randrange(4, 6))}}, rng))
+                                      "lists": {"additional_inputs": rand_list(tensors_x + SEQS + [{"seq": T(8, (2,))}], rng.randrange(4, 6))}}, rng))
         for _ in range(ck.pick(25, 200)):  # invalid operands
             cases.append(finish_case({"mod": mod, "ctor": "sequence_map",
                                       "singles": {"input_sequence": rng.choice(SEQS + [T(F32, (3,)), None, {"opt": SEQS[0]}])},
@@ -818,7 +882,7 @@ def gen_cases(ck, info):
 
 
 # ----------------------------------------------------------------------------- onnxruntime programs
-ORT_PROGS = ["loop_uses_args", "scan_rank1_state", "scan_rank2_state_two_scans", "scan_two_states",
+ORT_PROGS = ["loop_uses_args", "scan_rank1_state", "scan_reverse_out_axis", "scan_rank2_state_two_scans", "scan_two_states",
              "seqmap_tensor_extra", "seqmap_seq_extra", "if_no_args"]
 
 
@@ -862,6 +926,29 @@ def run_ort_prog(env: Env, mod_name, prog, seed):
                     vs = vs + np.float32(it)
                     av = av + np.float32(it)
                 expect = [vs, av, np.stack(scs)]
+            elif prog == "scan_reverse_out_axis":
+                # input scanned in reverse, scan output stacked along axis 1: body argument types unchanged
+                t = int(rng.integers(2, 5))
+                d = int(rng.integers(1, 4))
+                st = arg(Tn(np.float32, (d,)))
+                xs = arg(Tn(np.float32, (t, d)))
+
+                def body(s_, x):
+                    calls.append(1)
+                    y = op.add(op.mul(s_, op.const(np.float32(0.5))), x)
+                    return [y, y]
+
+                f, ys = op.scan([st, xs], body=body, num_scan_inputs=1, scan_input_directions=[1],
+                                scan_output_axes=[1], scan_output_directions=[0])
+                ins, outs = {"st": st, "xs": xs}, {"f": f, "ys": ys}
+                sv = rng.standard_normal(d).astype(np.float32)
+                xv = rng.standard_normal((t, d)).astype(np.float32)
+                feeds = {"st": sv, "xs": xv}
+                cur, ysv = sv.copy(), []
+                for i in reversed(range(t)):
+                    cur = cur * np.float32(0.5) + xv[i]
+                    ysv.append(cur)
+                expect = [cur, np.stack(ysv, axis=1)]
             elif prog in ("scan_rank1_state", "scan_rank2_state_two_scans", "scan_two_states"):
                 t = int(rng.integers(1, 5))
                 d = int(rng.integers(1, 4))
@@ -1007,6 +1094,20 @@ def run(ck: core.Check):
         problems += [f"generate_opset.py {c}: {p}" for p in spec["problems"]]
     for p in problems:
         ck.broken("translator", "C19 subgraph spec extraction", p)
+    try:
+        from translator import callgraph
+
+        cg = callgraph.generate()
+        ck.cov["call_graph"] = {
+            "functions": cg["n_functions"], "nodes": len(cg["nodes"]), "edges": len(cg["edges"]),
+            "edges_from_reachable": cg["edges_emitted"], "reachable": len(cg["reach"]),
+            "entry_points": {k: len(v) for k, v in cg["entries"].items()},
+            "sinks": cg["sinks_why"], "dynamic_calls": cg["dynamic"],
+        }
+        for sink, path in cg["sink_paths"].items():
+            ck.broken("callgraph", f"stored callback reachable: {sink}", " -> ".join(path))
+    except Exception as e:  # noqa: BLE001
+        ck.broken("translator", "C19 call graph extraction", f"{type(e).__name__}: {e}\n{core.fmt_exc()}")
     ck.cov["generated_specs"] = {f"{m}.{c}": s["subgraphs"] for m, f in info["modules"].items() for c, s in f.items()}
     ck.cov["callback_sites"] = info["sites"]
     ck.lean(["SpoxModel.Props.C19"], audit="SpoxModel.Audit.C19")
@@ -1034,7 +1135,7 @@ def _run(ck: core.Check, env: Env, info):
     info = dict(info, resolves=resolves)
     cases = gen_cases(ck, info)
     # which cases also get the later steps (builds, inference, value propagation)
-    n_steps = ck.pick(260, 2500)
+    n_steps = ck.pick(260, 3000)
     idx = list(range(len(cases)))
     def steppable(c):
         ds = [d for v in c.get("lists", {}).values() for d in v] + list(c.get("singles", {}).values())
@@ -1072,7 +1173,7 @@ def _run(ck: core.Check, env: Env, info):
             continue
         nops = sum(len(v) for v in case.get("lists", {}).values())
         key = (case["mod"], case["ctor"], repr(case.get("lists")), repr(case.get("singles")), repr(case.get("ints")),
-               repr(case.get("axes")), repr(sorted((r, c["beh"], c.get("n")) for r, c in case["cbs"].items())))
+               repr(case.get("axes")), repr(case.get("scan_attrs")), repr(sorted((r, c["beh"], c.get("n")) for r, c in case["cbs"].items())))
         ck.count(key if (nops >= 1 or not all_good(case)) else None)
         stats["ctor"][case["ctor"]] = stats["ctor"].get(case["ctor"], 0) + 1
         stats["stage"][obs["stage"]] = stats["stage"].get(obs["stage"], 0) + 1
@@ -1102,7 +1203,7 @@ def _run(ck: core.Check, env: Env, info):
     n_ort = 0
     for mod in env.mods:
         for prog in ORT_PROGS:
-            for rep in range(ck.pick(1, 4)):
+            for rep in range(ck.pick(1, 8)):
                 seed = rng.randrange(1 << 30)
                 n_ort += 1
                 ck.count(("ort", mod, prog))
